@@ -136,6 +136,22 @@ MUTANTS = [
      "names are cleaned and imported instead of rejected"),
     ("c08-off-translates-responses", "C08", J, "    if config.use_jsonclass:\n        # Convert beans\n        data = jsonclass.load(data, config.classes)",
      "    if config.use_jsonclass or \"result\" in data:\n        # Convert beans\n        data = jsonclass.load(data, config.classes)", "responses are translated although the switch is off"),
+    # --- reverts of later repairs: a repaired defect must be reported again if it ever returns
+    ("c09-start-lock-reverted", "C09", T, "            with self.__lock:\n                self.__nb_pending_task += 1\n            self.__start_thread()",
+     "            self.__nb_pending_task += 1\n            self.__start_thread()", "start() updates the pending counter outside the lock again"),
+    ("c05-instance-dispatch-fallback-reverted", "C05", S, "                    instance_dispatch = getattr(self.instance, \"_dispatch\")\n",
+     "                    return getattr(self.instance, \"_dispatch\")(method, params)\n",
+     "an AttributeError raised through instance._dispatch falls back to a second call"),
+    ("c10-nameless-callable-log-reverted", "C10", T, "                            getattr(method, \"__name__\", method),\n", "                            method.__name__,\n",
+     "a failing partial kills its worker again"),
+    ("c16-execute-except-exception-reverted", "C16", T, "            result = method(*args, **kwargs)\n        except BaseException as ex:",
+     "            result = method(*args, **kwargs)\n        except Exception as ex:", "futures of tasks raising SystemExit never complete"),
+    ("c09-worker-except-exception-reverted", "C09", T, "                        future.execute(method, args, kwargs)\n                    except BaseException as ex:",
+     "                        future.execute(method, args, kwargs)\n                    except Exception as ex:", "a task raising SystemExit ends its worker"),
+    ("c10-thread-start-failure-not-rolled-back", "C10", T, "            except (RuntimeError, OSError):\n                self.__nb_threads -= 1\n",
+     "            except (RuntimeError, OSError):\n                pass\n", "a refused thread creation leaves a phantom worker in the counter"),
+    ("c12-server-close-guard-reverted", "C12", S, "        if serving:\n            # shutdown() waits for the end of the serving loop: it must only\n            # be called if there is such a loop, or it would block forever\n            SimpleJSONRPCServer.shutdown(self)",
+     "        SimpleJSONRPCServer.shutdown(self)", "server_close() on a pooled server that never served blocks for ever again"),
 ]
 
 # controls: changes that do NOT break the property (equivalent or unobservable with the stdlib JSON backend): a check
